@@ -326,6 +326,8 @@ func init() {
 			js = append(js, Job{Sub: "sites", Mode: "prod", From: 7218, To: 7434, Variant: "verbose", Timeout: 20 * time.Minute})
 			// processes whose first log/slog handler record comes from a wrapping helper, not from a Logger method
 			js = append(js, chunk("sites", "prod", 7218, 903, Job{Args: []string{"-x", "firstwrap=1"}, Timeout: 20 * time.Minute})...)
+			// ... and once more in processes whose working directory was removed under them
+			js = append(js, chunk("sites", "prod", 7218, 903, Job{Args: []string{"-x", "cwdgone=1"}, Timeout: 20 * time.Minute})...)
 			js = append(js, chunk("conc", "prod", pick(tier, 8, 60), pick(tier, 2, 6), Job{Timeout: 20 * time.Minute})...)
 			if tier == "thorough" {
 				js = append(js, chunk("sites", "prod", 7218, 452, Job{NoInl: true, Args: []string{"-x", "build=noinline"}, Timeout: 20 * time.Minute})...)
